@@ -260,16 +260,22 @@ def _flush_effect(ctx, ns):
     a = ns["self"]
     q = a.idict["_send_messages"].st
     before = len(q["items"]) + (int_term(q["extra"]) if q.get("extra") is not None else 0)
-    n = ctx.fresh_int("left_in_queue")
+    name = ctx.fresh_name("left_in_queue")
+    t = z3.Int(name)
+    ctx.inputs[name] = t
+    n = SInt(t)
     ctx.assume_raw(z3.And(n.term >= 0, n.term <= before))
+    # (recorded so that the native replay leaves exactly that many messages queued)
+    ctx.summary_returns.append(("C07/setup.DiameterAssociation.send_message_from_queue[summary]#left", name, T.Int()))
     q["items"] = []
     q["extra"] = n
     return None
 
 
-def _drain(self):
-    # run-time twin used when a counterexample is replayed: the usual outcome, everything flushed
-    while not self._send_messages.empty():
+def _drain(self, _chosen=0):
+    # run-time twin used when a counterexample is replayed: everything is flushed except the number of
+    # messages the counterexample left in the queue
+    while self._send_messages.qsize() > max(0, int(_chosen or 0)):
         self._send_messages.get()
     return True
 
